@@ -19,7 +19,7 @@ CHECKS = {
     "C05": ("exploration", "seq", "runtime monitor: store-directory abstraction compared with a reference model after every call (bounded-exhaustive + random call sequences); plus post-condition / invariant monitors wrapped round the public methods while the repository's own test suite runs (another author's inputs)",
             "After every call of every sequence (all sequences up to length 3/4 over a 26-op menu, plus long random ones over the whole API) the two reference indexes, the object set and residue are compared with a reference model and a structural invariant.",
             "4/C05", SEQ_NOTE),
-    "C02": ("exploration", "seq", "runtime monitor: post-condition on hex_digests / get_hex_digest against hashlib over long histories on one store instance; plus post-condition / invariant monitors wrapped round the public methods while the repository's own test suite runs (another author's inputs)",
+    "C02": ("exploration", "seq", "runtime monitor: post-condition on hex_digests / get_hex_digest against hashlib over long histories on one store instance, and over overlapping calls on one instance (scheduler-controlled statement-level schedules + free-running threads); plus post-condition / invariant monitors wrapped round the public methods while the repository's own test suite runs (another author's inputs)",
             "Every store_object / get_hex_digest result of 20-60 call histories on ONE long-lived instance is checked: key set == five defaults + the algorithms named in that call; values == hashlib; all 12 algorithms under every accepted spelling. History dependence is only reachable by running histories, hence exploration.",
             "4/C02", SEQ_NOTE),
     "C03": ("exploration", "seq", "runtime monitor: before/after directory abstraction around every re-bind attempt in bounded-exhaustive and random call sequences; linearizability oracle over scheduler-controlled triples with two binders of one pid",
